@@ -2,11 +2,15 @@
 from .. import protocol, pipeline
 
 ID = 'C07'
+PROP_FILES = ['C07', 'SendBalLemmas', 'SendBalInv', 'SendPubLemmas', 'C04OnePublish']
 MODULES = ['OFModel.Zmq.Receiver', 'OFModel.Zmq.Sender', 'OFModel.Gen.Facts']
 RULE = ('balanced receivers (2-4 synchronised sources, disjoint or clashing worker ids, bal flags 1/2, random interleavings, several ready sources per poll, '
         'time-outs between any two messages) and balanced senders (2-3 bound outputs, 1-4 clients spread over them, duplicated/stale/ahead requests, evictions); '
-        'oracle: every returned set from one source under one id, ids strictly increasing; every publish on exactly one output.  non-trivial = set returned / block published')
-ASSUMPTIONS = ['libzmq replaced by the in-process fake', 'completeness of the rejoined stream is not claimed by the property (late results of slow workers are dropped)']
+        'oracle: every returned set from one source under one id, ids strictly increasing; every publish on exactly one output; bal-output-not-ready (sendfeed.publish_needs_request): a balanced publish '
+        'never goes to an output one of whose tracked synchronised clients has not asked since the last publish there - proved as C07_publish_needs_all_asked / C07_send0_publish_needs_all_asked '
+        '(OFProps/C04OnePublish.lean: out_do_send of an output <=> all its tracked clients asked or are ephemeral, C07_do_send_iff_all_asked), every call compared with the real class by send.run.  '
+        'non-trivial = set returned / block published')
+ASSUMPTIONS = ['libzmq replaced by the in-process fake', 'balanced publish: "all synchronised clients of the chosen output asked" holds for every state of every run (C07_publish_needs_all_asked_run); "at least one client of that output asked" (C07_publish_some_asked) only if no CLOSE is taken between the decision and send_maybe (kernel-evaluated witness, same behaviour of the real class: the block goes to an output nobody is tracked on), and that client may be an ephemeral one', 'completeness of the rejoined stream is not claimed by the property (late results of slow workers are dropped)']
 TRUSTED = ['transcriptions OFModel/Zmq/Receiver.lean and Sender.lean, compared call-by-call with the real classes']
 
 
